@@ -238,7 +238,7 @@ def main(chk):
     cases = []
     cid = 0
     if chk.quick():
-        nlibs, per = 6, 14
+        nlibs, per = 4, 12
     else:
         nlibs, per = 24, 40
     # pairwise-ish random sampling of option sets, every backend x naming guaranteed
@@ -274,11 +274,11 @@ def main(chk):
                           opts=[rng.choice(["-c", "-python-native", "-python"]), "-fnames"] +
                           (["-unique-names"] if rng.random() < 0.5 else [])))
     # adversarial names / literals, and declarations with unusual types
-    for i in range(chk.pick(12, 120)):
+    for i in range(chk.pick(10, 120)):
         cid += 1
         cases.append(dict(id=cid, libseed=rng.randrange(1 << 30), adv=True,
                           opts=[rng.choice(BACKENDS), "-fnames", "-string"] + [f for f in ("-promiscuous", "-nomangle", "-unique-names") if rng.random() < 0.3]))
-    for i in range(chk.pick(6, 60)):
+    for i in range(chk.pick(5, 60)):
         cid += 1
         cases.append(dict(id=cid, libseed=rng.randrange(1 << 30), oddities=True, size=0.5,
                           opts=[rng.choice(BACKENDS), "-fnames", "-string"]))
